@@ -5,6 +5,8 @@ import numpy as np
 
 from . import common as C
 from translate import ufunc_deriv as T
+from translate import derivatives as TD
+from translate import gradients as TG
 
 PID = 'C06'
 SHARD_SIZE = 150
@@ -22,25 +24,32 @@ RULE = ('random well-typed expression trees (depth 0..4 quick, 0..6 thorough) ov
         'derivative/gradient tables against numpy primitives; random trees of the functional arithmetic (value, '
         'gradient element, derivative(x)(d), class of derivative(x)).  A tree case is non-trivial when the operator is '
         'flagged nonlinear; distinct by (tree, x, d).')
-ASSUMPTIONS = ['exact arithmetic: the model is evaluated over Q / proved over R; float rounding is outside the theorems '
-               '(tolerance 1e-9 abs+rel in the correspondence)',
+ASSUMPTIONS = ['exact arithmetic: float rounding is outside the theorems (tolerance 1e-9 abs+rel in the correspondence); '
+               'that the run at Q is the rational restriction of the model at R is PROVED for the polynomial part '
+               '(C06/Transfer.v) and assumed for the parts with square roots / divisions',
                'elements of rn(n) are modelled as lists, the scalar field as singleton lists, product-space elements as '
                'the concatenation of their parts',
                'differentiability of a composite is proved at points where every leaf met along the way is '
                'differentiable (regular points); zero-crossings of reciprocal/log/sqrt/|.|/norm are excluded as in the property',
-               'Hadamard (curve-wise) differentiability is used as the definition of the Frechet derivative on R^n '
-               '(equivalent in finite dimension; the equivalence itself is not formalised); uniqueness and the '
-               'central-difference limit are proved from it',
+               'the literal Frechet statement (||F(x+h)-F(x)-D h|| <= eps ||h|| for ||h|| < delta, sup norm and '
+               'Euclidean norm) is PROVED for every operator tree (C06/Frechet.v, FrechetTrees.v), with the added premise '
+               'that user-defined leaves are Frechet differentiable; for the functional arithmetic the derivative is '
+               'stated curve-wise (Hadamard), which a Frechet derivative is proved to agree with; the general converse '
+               '(Hadamard + linear => Frechet on R^n, needs compactness of the unit sphere) is not formalised; ODL\'s '
+               'weighted 2-norms differ from the Euclidean norm by constant factors (norm equivalence lemma fdiff_norms)',
                'central-difference O(h^2) rate is validated numerically (probes: error ratio per decade of h in the asymptotic '
                'window), not proved']
-TRUSTED = ['translate/ufunc_deriv.py (Python ast -> Gallina tables), fail-closed',
-           'C06/Model.v hand-written mirror of the derivative methods, tied by structural correspondence',
+TRUSTED = ['translate/ufunc_deriv.py, translate/derivatives.py, translate/gradients.py (Python ast -> Gallina rules), fail-closed',
+           'C06/Interp.v, C06/FInterp.v: meaning of the rule syntax (the overloads scalar*op, op*scalar, vector*op, op*vector, '
+           'value*op, op+op and the constructors); the model is PROVED equal to the interpreted regenerated rules and is also '
+           'tied by the structural correspondence',
            'harness serialiser of Python operator objects into oexpr/fexpr terms; the measured variant switch mav',
            'NumPy entry-wise kernels, ODL element arithmetic']
 
 
 def translate():
-    return {'Gen/UfuncDeriv.v': T.translate()}
+    return {'Gen/UfuncDeriv.v': T.translate(), 'Gen/Derivatives.v': TD.translate(),
+            'Gen/Gradients.v': TG.translate()}
 
 
 # ------------------------------------------------------------------ spaces
@@ -1573,21 +1582,28 @@ LEVEL_TEXT = ('Proof: Coq theorem for EVERY expression tree (any depth, any numb
               'Matrix, InnerProduct, Zero, Constant, Power (integer), every ufunc with a derivative, Norm, Dist, '
               'PointwiseNorm (exponent 1, 2; weights) / PointwiseInner, RealPart, ImagPart, ComplexModulus(Squared) '
               '(real and complex spaces) and arbitrary user-defined leaves: at every regular point where derivative(x) '
-              'returns, the returned object evaluates to the Frechet (Hadamard) derivative, is a bounded linear map '
+              'returns, the returned object evaluates to the Frechet derivative -- literally, little-o in the (sup and Euclidean) norm, '
+              'and curve-wise (Hadamard) --, is a bounded linear map '
               'domain -> range, is flagged linear and passes the space checks; hence its action on d is the limit of '
               'central differences (epsilon-delta theorem) and is unique. Flagged-linear trees are proved linear and their '
               'own derivative; affine ones have the derivative of the linear part; on R^n additivity+homogeneity is '
               'proved to imply boundedness. For every tree of the functional arithmetic, <gradient(x), .> '
               '(= Functional.derivative(x)) is proved to be the derivative. Each entry of the ufunc derivative/gradient '
               'tables REGENERATED from ufunc_ops.py is proved to be the derivative of its ufunc. The models are tied to '
-              'the code by a structural correspondence on random trees (the whole derivative object is compared).')
+              'the code twice: the derivative methods of the 13 classes, the leaf rules, the linear flags and the gradient '
+              'rules of functional.py are regenerated from the source on every run and the model is PROVED equal to their '
+              'interpretation (a changed inner point / factor / operand breaks a proof), and a structural correspondence '
+              'on random trees compares the whole derivative object. The run at Q is proved to be the restriction of '
+              'the model at R for the polynomial part.')
 LEVEL_NOTE = ('Validated, not proved: the O(h^2) rate; non-integer powers, PointwiseNorm exponents other than 1, 2, '
               'complex scalars/products, the remaining ~20 functionals, weighted/discretised spaces (theorems are for '
               'rn/cn with constant/array weightings and 1-d uniform_discr), finite-difference operators with pad_const -- all '
               'by central-difference probes on the '
-              'real objects. Exact arithmetic: rounding out of scope. Six open findings and three repaired ones '
+              'real objects. Exact arithmetic: rounding out of scope. Five open findings and four repaired ones '
               '(findings/C06.json). Axioms: classical reals, funext, classic as printed.')
 TECHNIQUE = ('Coq proof by structural induction over a deep embedding of operator arithmetic (nested lists for block '
-             'operators), with a curve-based (Hadamard) differentiability calculus on R^n built on the standard-library '
-             'derivable_pt_lim; source-regenerated ufunc tables; in-Coq structural differential correspondence with a '
+             'operators), with a curve-based (Hadamard) and an epsilon-delta (Frechet, in norm) differentiability calculus on R^n '
+             'built on the standard-library derivable_pt_lim; derivative/gradient RULES and ufunc tables regenerated from the '
+             'source by fail-closed ast translators and the model proved equal to their interpretation; Q->R transfer of '
+             'the polynomial part; in-Coq structural differential correspondence with a '
              'measured variant switch; central-difference probes')
